@@ -222,6 +222,11 @@ fn write_forwarded_suffix(
     );
 }
 
+/// RFC 9110 §5.6.2 `tchar`.
+fn is_token_byte(b: u8) -> bool {
+    b.is_ascii_alphanumeric() || b"!#$%&'*+-.^_`|~".contains(&b)
+}
+
 /// Checks, on the header blocks kawa's HTTP/1 parser produced for a request,
 /// the framing rules kawa itself is lenient about. Returns the reason of the
 /// first violation; the caller turns it into a parse error (answered 400).
@@ -236,6 +241,9 @@ fn write_forwarded_suffix(
 ///   with `str::parse`, which also accepts a sign (`+3`), honours it and
 ///   forwards the field verbatim; a backend may refuse it or read another
 ///   length (CL.CL desynchronisation).
+/// - every field name must be a non-empty token (RFC 9110 §5.1). kawa accepts
+///   an empty name (`: value`) and the non-token bytes `"` and `/`, and
+///   forwards the line verbatim; such a line is malformed for the backend.
 fn h1_framing_violation(
     blocks: &std::collections::VecDeque<kawa::Block>,
     buf: &[u8],
@@ -249,6 +257,9 @@ fn h1_framing_violation(
             continue;
         }
         let key = header.key.data(buf);
+        if key.is_empty() || !key.iter().all(|&b| is_token_byte(b)) {
+            return Some("field name is not a token");
+        }
         if compare_no_case(key, b"transfer-encoding") {
             if transfer_encoding_seen || !compare_no_case(header.val.data(buf), b"chunked") {
                 return Some("Transfer-Encoding is not exactly one `chunked`");
@@ -654,6 +665,16 @@ impl HttpContext {
             }
         );
         if from_h1_wire {
+            let method_is_token = match &request.detached.status_line {
+                kawa::StatusLine::Request { method, .. } => method
+                    .data_opt(buf)
+                    .is_some_and(|m| !m.is_empty() && m.iter().all(|&b| is_token_byte(b))),
+                _ => true,
+            };
+            if !method_is_token {
+                request.parsing_phase.error("method is not a token".into());
+                return;
+            }
             if let Some(reason) = h1_framing_violation(&request.blocks, buf) {
                 request.parsing_phase.error(reason.into());
                 return;
